@@ -142,7 +142,7 @@ EXTRA = {
  "C16": " Added: the history limit cannot be intercepted by Retry/Catch, payload type validation of StartSyncExecution / SendTaskSuccess.",
  "C17": " Added: the Name a child execution is launched with (validated like the API's), names rebuilt by every deriving site for wordy names.",
  "C18": " Added: states named like keywords (Next, End, States ...) with each defect placed in them, ill-formed Task replies on the reply queue, numeric fields (MaxConcurrency, Seconds, TimeoutSeconds, HeartbeatSeconds) - validator-accepted values must run, the same definitions stored without validation must still end.",
- "C20": " Added: an execution record lost from the store while its events are in flight is restored, over the file and Redis stores.",
+ "C20": " Added: an execution record lost from the store while its events are in flight is restored, over the file and Redis stores; a symbolic crash point inside a JSON store write (the restarted store holds the state before or after the interrupted operation).",
  "C01": " Third session: $$.Execution.Input and $$ selections read by later states, and generated two-level fan-out machines (Parallel/Map roots, nested Parallel/Map, MaxConcurrency, Catch at three places, one failing leaf) compared with the reference interpreter under the canonical schedule.",
  "C02": " After quiescence the engine's periodic time-out back-stop is invoked long after the time-out and must find nothing to do; scenarios added for execution time-outs, three-level nesting, queue starts without message ids, the back-stop meeting an already ended execution.",
  "C03": " A further monitor requires that no timer of an ended execution stays armed (the uncancellable retry-delay timer is a recorded known finding); scenarios added for nested fan-out states entered after termination, empty Maps ending a Branch, ItemSelector failures.",
